@@ -681,6 +681,8 @@ def run(tier):
     rep.assume('RLE pair, whole-file round trips, cross-format equality, independent readers, poke/move: bounded stand-ins, never counted as proved')
     check_codecs(rep)
     check_rle_structure(rep)
+    from props import pokevc
+    pokevc.check_poke(rep, 'C09', tier)        # the cell-writing kernel of poke(): exactly the named cells, f(old) in each
     quick = tier == 'quick'
     n, bad = rle_bounded(quick)
     rep.bounded.append({'function': 'skoolkit.snapshot.Z80._make_z80_ram_block / Z80._decompress', 'contract': 'decompress(compress(d)) == d; length prefix / end marker; bytes in 0..255',
@@ -712,6 +714,45 @@ def replay(path):
         doc = json.load(f)
     case = doc.get('case')
     print('replaying', doc.get('key'), case)
+    if isinstance(case, dict) and 'poke_spec' in case:
+        import random
+        import skoolkit.snapshot as S
+        from props.pokevc import f_spec
+        spec = case['poke_spec']
+        rnd = random.Random(5)
+        bad = False
+        for trial in range(20):
+            if case.get('is128'):
+                m = S.Memory(snapshot=[rnd.randrange(256) for _ in range(0x20000)], page=rnd.randrange(8))
+                before = [list(b) for b in m.banks]
+                S.poke(m, spec)
+                page, rest = spec.split(':', 1)
+                addr, val = rest.split(',', 1)
+                exp = [list(b) for b in before]
+                bank = exp[int(page) % 8]
+                got = [list(b) for b in m.banks]
+            else:
+                m = [rnd.randrange(256) for _ in range(65536)]
+                exp = list(m)
+                S.poke(m, spec)
+                addr, val = spec.split(',', 1)
+                bank = exp
+                got = m
+            op = val[0] if val[0] in '^+' else ''
+            v = int(val.lstrip('^+'))
+            f = [int(x) for x in addr.split('-')]
+            lo, hi, st = f[0], (f[1] if len(f) > 1 else f[0]), (f[2] if len(f) > 2 else 1)
+            for a in range(lo, hi + 1, st):
+                k = a % 0x4000 if case.get('is128') else a
+                bank[k] = f_spec(op, bank[k], v)
+            if got != exp:
+                bad = True
+                break
+        print('poke %s: %s' % (spec, 'memory differs from the cells named by the spec' if bad else 'as specified'))
+        if bad:
+            print('VIOLATION property=C09 replay=%s' % path)
+            return 1
+        return 0
     if isinstance(case, dict) and 'format' in case:
         d = concrete_tstates(case['format'], case['machine_id'], case['tstates'])
         print(d)
